@@ -209,7 +209,8 @@ def coord_forms(rng):
         return lambda d, k: d
     import pandas as pd
 
-    forms = [lambda d: datetime.datetime(d.year, d.month, d.day, 13, 45), lambda d: pd.Timestamp(d) + pd.Timedelta(hours=23),
+    forms = [lambda d: datetime.datetime(d.year, d.month, d.day, 13, 45),
+             lambda d: (pd.Timestamp(d) + pd.Timedelta(hours=23)) if 1700 < d.year < 2262 else datetime.datetime(d.year, d.month, d.day, 23),
              lambda d: _DT(d.year, d.month, d.day, 0, 0, 1)]
     rng.shuffle(forms)          # all three coordinates datetime-like: the constructor compares them before it
     return lambda d, k: forms[k % 3](d)     # normalises, and Python refuses datetime < date
